@@ -191,7 +191,14 @@ TEXT = {
           "epochs reached with degenerate participants: weightless / no / single "
           "backers, total weight 0, idle producer, revoked sentinel / stake / pillar entries; plus histories in which the three "
           "sporks are enforced DURING the history in every order with batches of calls to the gated contracts in every momentum "
-          "around each enforcement height, so that calls accepted under one regime are received under the next).",
+          "around each enforcement height, so that calls accepted under one regime are received under the next; plus every "
+          "combination of lengths 0..3 of the slice arguments of every method that has any (found by reflection over the ABI), "
+          "sent by the administrator; the security state machine of liquidity and bridge (guardian sets growing / shrinking / "
+          "staying, emergency, votes of the first / middle / last guardian, administrator changes, halts, with the invariant "
+          "'as many vote slots as guardians'); calls that become invalid through chain time only (accelerator life time and "
+          "voting period shortened so that they end during the history, expiring HTLCs, halt / unhalt delays) with "
+          "amount-carrying calls before, in flight across and after every switch; an amount-carrying call answered with "
+          "status 1 must have written contract storage or sent a block on).",
   "design_ref": "§3 C09",
   "note": "Panic-freedom/termination of the Go method bodies (T4, T5) is by the autoreceive stream's monitors, not by "
           "per-method Lean models. Known finding F18 (reproduced on the unchanged tree by the scenario "
